@@ -32,3 +32,9 @@ META["C18"] = {
     "note": "Trusts connect-go/grpc-go/protobuf-go as pinned; in-place mutation of conversion inputs is not asserted; type-URL prefix normalisation is allowed.",
     "technique": "property-based round-trip testing (rapid)",
 }
+
+META["C20"] = {
+    "text": "Model-based (state-machine) testing of pooled compressor/decompressor reuse for all six encodings with connect-go's exact Get/Put call sequence: random histories up to length 12 and all histories up to length 3 (quick) / 4 (thorough) over a 10-operation alphabet, including malformed decodes immediately before valid ones; outputs are cross-checked against the stdlib/third-party codecs called directly, which also pins name-to-algorithm mapping. Exploration; the bounded history space is enumerated completely.",
+    "note": "Trusts the independent stdlib/third-party encoders/decoders and the pool call sequence copied from connect-go v1.18.1; malformed input is only required not to crash.",
+    "technique": "stateful property-based testing (rapid) + bounded-exhaustive history enumeration with differential oracle",
+}
